@@ -33,6 +33,9 @@ RULE = (
     " Policies max_bindings:2/3/4 (a persistent limit), three adjacent columns in every listi"
     "ng order, walks of more than 4096 instances."
     " One walk over two adjacent 26000-row columns (52000 instances)."
+    ' bulk_size left at its default for every boundary case and for 1..40 roots. After five p'
+    'olling cycles in which every GETBULK of a client was refused as tooBig, the bulk walk on'
+    ' that client is exact again.'
 )
 ASSUMPTIONS = [
     "reference agent's GETBULK (vf/agent.py) follows RFC 3416 4.2.3; all truncation policies used are conformant",
